@@ -747,6 +747,7 @@ def _expect_maps_every_line(c: Check, rule: str, cls: ClassDef, param: str):
         it = Interp(ix, fo, Hooks())
         fn = Sym('given-function')
         insts = it.instantiate(cls, State(), {param: fn})
+        c.require(len(insts) == 1, 'C05: constructor of %s has %d paths' % (cls.key, len(insts)))
         obj, st = insts[0]
         lines = text_lines(width)
         lv = ListVal(list(lines))
@@ -959,18 +960,21 @@ def _replace_rest(c, ix, fo, base, incl, excl, wi, wo, tr):
     it = Interp(ix, fo, H1())
     pat, rep = Sym('pattern'), Sym('replacement')
     insts = it.instantiate(incl, State(), {'compiled_regular_expression': pat, 'replacement': rep})
-    obj, st = insts[0]
     text = Sym('text')
     n_sub = 0
-    for p in it.run_function(sub, {sub.positional_params()[1].arg: text}, st, recv=obj):
-        if p.kind != 'return':
-            continue
-        n_sub += 1
-        nm, recv, args, ev = call_of(p, p.val)
-        ok = nm == 'sub' and recv is pat and len(args) == 2 and args[0] is rep and args[1] is text and not ev.data['kwargs']
-        c.expect(ok, 'C05-i', '_sub/pattern-replacement-text-in-their-roles',
-                 'the substitution is %s (expected <pattern>.sub(<replacement>, <text>))' % (
-                     unparse(ev.node) if ev is not None else util.describe(p.val)), sub.loc())
+    c.require(1 <= len(insts) <= 8, 'C05-i: %d constructor paths of the replacer' % len(insts))
+    for obj, st in insts:  # every way the replacer can be constructed (a flag set in the constructor selects a path)
+        for p in it.run_function(sub, {sub.positional_params()[1].arg: text}, st.fork(), recv=obj):
+            if p.kind != 'return':
+                continue
+            n_sub += 1
+            nm, recv, args, ev = call_of(p, p.val)
+            ok = nm == 'sub' and recv is pat and len(args) == 2 and args[0] is rep and args[1] is text \
+                and ev is not None and not ev.data['kwargs']
+            c.expect(ok, 'C05-i', '_sub/pattern-replacement-text-in-their-roles',
+                     'the substitution is %s (expected <pattern>.sub(<replacement>, <text>) - the compiled pattern, '
+                     'with its flags, decides what is replaced)' % (
+                         unparse(ev.node) if ev is not None else util.describe(p.val)), sub.loc())
     c.require(n_sub >= 1, 'C05-i: _StrReplacer._sub has no returning path')
     # (4)
     selr = ix.cls(RP + ':_ReplacerWLineMatcherSelector')
